@@ -188,9 +188,15 @@ func cmdCheck(args []string) int {
 		}
 		budget := h.BudgetQ
 		timeout := 10000
+		if budget == 0 {
+			budget = 900
+		}
 		if tier == 1 {
 			budget = h.BudgetT
-			timeout = 60000
+			if budget == 0 {
+				budget = 1500
+			}
+			timeout = 30000
 		}
 		opt := runOpts{tier: tier, unwind: unwind, maxSteps: 200_000_000, seed: seed, solver: "z3", timeoutMS: timeout, workers: workers, budgetS: budget}
 		if h.Solver != "" {
